@@ -32,10 +32,13 @@ def mk_columns(op, array_align, nsym=2):
         import cogent3
 
         _ = TOTAL
-        if not W.PLAIN:
-            from crosshair import deep_realize
+        code, untraced = W.concrete(code)
+        with untraced:
+            return body(code)
 
-            code = deep_realize(code)
+    def body(code):
+        import cogent3
+
         ra, rb = "", ""
         for _i in range(nsym):
             ra += _COL_A[code % NA]
